@@ -94,6 +94,7 @@ type Net struct {
 	Views map[party.ID]map[int]map[party.ID]string
 	// AcceptHang is set when an Accept call did not return within the watchdog.
 	AcceptHang     string
+	AcceptHangID   party.ID // the party whose Accept never returned (its handler must not be queried any more)
 	AcceptHangDump string
 	AcceptHangCPU  int64
 	AcceptWatchdog time.Duration
@@ -249,6 +250,11 @@ func (n *Net) Deliver(d *Delivery) {
 	}
 	n.AcceptWithDrain(p, m)
 	n.Steps++
+	if n.AcceptHang != "" {
+		// the call never returned: it may hold the handler's lock for ever, so the handler must not be asked anything
+		n.logf(Event{Step: n.Steps, Kind: "deliver", From: string(d.From), To: string(p.ID), Round: d.Round, Bcast: d.Bcast, Hash: h8(m.Data), CanAccept: can, State: "ACCEPT-NEVER-RETURNED", Tag: d.Tag})
+		return
+	}
 	n.logf(Event{Step: n.Steps, Kind: "deliver", From: string(d.From), To: string(p.ID), Round: d.Round, Bcast: d.Bcast, Hash: h8(m.Data), CanAccept: can, State: State(p.H), Tag: d.Tag})
 	n.DrainAll()
 }
@@ -307,6 +313,7 @@ func (n *Net) AcceptWithDrain(p *Party, m *protocol.Message) {
 			n.AcceptHangDump = string(buf[:k])
 			n.AcceptHangCPU = cpuNanos() - cpu0
 			n.AcceptHang = fmt.Sprintf("Accept at %s of round-%d message from %s did not return within the wall-clock watchdog", p.ID, m.RoundNumber, m.From)
+			n.AcceptHangID = p.ID
 			return
 		}
 	}
